@@ -350,7 +350,8 @@ class ReservablePriorityReqFilterStore(FilterStore):
 
                   #reserving the item to preserved item order by adding the reserve_get event to a list(the index position of event= index position of reserved item)
                   self.reserved_events.append(event)
-                  break
+                  # granted: let _trigger_reserve_get go on to the request that is next in line now
+                  return True
 
 
 
